@@ -1033,11 +1033,13 @@ def rule_cons(ctx, kernels=None):
             for e in g:
                 lp = e.loops[-1] if e.loops else None
                 # (i) inside one `for row in range(depth)`, index [row, buckets[row]]
+                # (the rows may be enumerated backwards: row = depth - 1 - i is a bijection of range(depth) onto itself, and the
+                # rows of one key are independent)
                 okk = (len(e.loops) == 1 and lp.kind == "range" and lp.start == Lin.const(0) and lp.step == Lin.const(1)
                        and depth_p is not None and lp.stop == Lin.term(("param", depth_p))
-                       and len(e.idx) == 2 and e.idx[0].lin == Lin.term(lp.varterm))
+                       and len(e.idx) == 2 and (e.idx[0].lin == Lin.term(lp.varterm) or e.idx[0].lin == lp.stop - 1 - Lin.term(lp.varterm)))
                 col = e.idx[1].lin.single_term() if len(e.idx) == 2 else None
-                okk = okk and col is not None and col[0] == "cell" and col[1] == buckets_p and col[3] == (Lin.term(lp.varterm).key(),)
+                okk = okk and col is not None and col[0] == "cell" and col[1] == buckets_p and col[3] == (e.idx[0].lin.key(),)
                 res_i.append((bool(okk), "index is [row, buckets[row]] inside `for row in range(depth)`" if okk
                               else "store index/loop is not [row, buckets[row]] under range(depth)", fact_strs(e)))
                 # (iii) stored value is loop-invariant (the same new_count for every row)
@@ -1071,16 +1073,17 @@ def rule_cons(ctx, kernels=None):
                 if any(x in g for x in evs):
                     res_c.append((True, "cell raised to new_count", fact_strs(le)))
                     continue
-                rd = [x for x in evs if x.kind == "read" and x.arr.name == table and len(x.idx) == 2 and x.idx[0].lin == Lin.term(le.loop.varterm)]
+                rd = [x for x in evs if x.kind == "read" and x.arr.name == table and len(x.idx) == 2
+                      and (x.idx[0].lin == Lin.term(le.loop.varterm) or x.idx[0].lin == le.loop.stop - 1 - Lin.term(le.loop.varterm))]
                 # the value this execution of the loop stores (paths differ in how new_count was formed)
                 newv_here = next((e.value.lin for e in g if e.loops and e.loops[-1] is le.loop and isinstance(e.value, Num)), newv)
-                okc = newv_here is not None and any(w.P.prove_le0(newv_here - Lin.term(x.term), le.facts) for x in rd)
+                okc = newv_here is not None and any(prove_le0_cases(w.P, newv_here - Lin.term(x.term), le) for x in rd)
                 if not okc and newv_here is not None and rd:
                     # the dominating query returned the minimum over exactly these cells (rules qmin / addr): its result is <= each of them
                     pre_q = [c for c in on_path(w.events, le) if c in qcalls and isinstance(getattr(c, "result", None), Num)]
                     if pre_q:
                         qres = pre_q[-1].result.lin
-                        okc = any(w.P.prove_le0(newv_here - Lin.term(x.term), list(le.facts) + [qres - Lin.term(x.term)]) for x in rd)
+                        okc = any(prove_le0_cases(w.P, newv_here - Lin.term(x.term), le, [qres - Lin.term(x.term)]) for x in rd)
                 res_c.append((bool(okc), "row skipped only when its cell is already >= new_count" if okc else
                               "a row of the key can be left below new_count: the key's estimate after the add is then smaller than old + v", fact_strs(le)))
             if res_c:
@@ -1227,9 +1230,35 @@ def rule_logstep(ctx):
     lp = lends[0].loop if lends else None
     okk = lp is not None and lp.kind == "range" and lp.start == Lin.const(0) and lp.step == Lin.const(1) \
         and lp.stop == Lin.term(("param", "value"))
-    ctx.ob("logstep", k, lp.node if lp else k.node, "for _ in range(value)", "at most `value` steps: one loop over range(value)", bool(okk))
-    assigns = [e for e in w.events if e.kind == "assign" and e.name == "counter"]
+    if not okk and lp is not None and lp.kind != "range":
+        okk = None          # a while loop with its own remaining-work counter: not the shape this rule reads
+    ctx.ob("logstep", k, lp.node if lp else k.node, "for _ in range(value)", "at most `value` steps: one loop over range(value)",
+           okk if okk is None else bool(okk), "" if okk else "the step loop is not `for _ in range(value)`" + (": shape not understood" if okk is None else ""))
+    cname = k.params[0]
+    alias_init = None
+    if not any(e.kind == "assign" and e.name == cname for e in w.events):
+        # the parameter is never stepped: the steps run on a working copy `level = uintN(counter)` made before the loop
+        for n in walk_no_nested(k.node):
+            if isinstance(n, ast.Assign) and len(n.targets) == 1 and isinstance(n.targets[0], ast.Name):
+                v = n.value
+                while isinstance(v, ast.Call) and len(v.args) == 1 and not v.keywords:
+                    v = v.args[0]
+                if isinstance(v, ast.Name) and v.id == k.params[0] and not (lp is not None and is_inside(k.node, n, lp.node)):
+                    cname = n.targets[0].id
+                    alias_init = n
+                    break
+    assigns = [e for e in w.events if e.kind == "assign" and e.name == cname]
     nr = Lin.term(("param", "num_reserved"))
+    loopn = lp.node if lp else None
+    outside = []
+    for n in walk_no_nested(k.node):
+        if isinstance(n, (ast.Assign, ast.AugAssign)) and n is not alias_init:
+            tg = n.targets if isinstance(n, ast.Assign) else [n.target]
+            for t in tg:
+                for e_ in (t.elts if isinstance(t, (ast.Tuple, ast.List)) else [t]):
+                    if isinstance(e_, ast.Name) and e_.id == cname and not (loopn is not None and is_inside(k.node, n, loopn)):
+                        outside.append(n)
+    batched = bool(outside)
     for g in group_by_node(assigns):
         res1, res2 = [], []
         for e in g:
@@ -1241,6 +1270,9 @@ def rule_logstep(ctx):
                 # `counter, ptr = step(counter, ...)` on the path where the step leaves the counter alone: no change
                 res1.append((True, "no change on this path", fact_strs(e)))
                 continue
+            if not d.is_const() and not e.loops:
+                res1.append((None, "a batched step of %s before the per-unit loop: not a shape this rule follows" % show_lin(d), fact_strs(e)))
+                continue
             res1.append((d == Lin.const(1), "each change is +1" if d == Lin.const(1) else "counter changes by %s" % show_lin(d), fact_strs(e)))
             drew = any(c.kind == "call" and c.name == "_rand" and c.loops == e.loops for c in on_path(w.events, e))
             if drew:
@@ -1251,19 +1283,12 @@ def rule_logstep(ctx):
                 p = w.P.prove_le0(e.old.lin - nr + 1, e.facts)
                 res2.append((bool(p), "unconditional step only when counter < num_reserved" if p else
                              "an unconditional step is possible at counter >= num_reserved", fact_strs(e)))
+        if batched:
+            # a batched step before the loop is not followed, so what the loop may assume about the counter is unknown: unproved != refuted
+            res2 = [((None if r[0] is False else r[0]),) + tuple(r[1:]) for r in res2]
         agg(ctx, "logstep", k, g[0].node, src(k, g[0].node), "every change of the counter is +1", res1)
         agg(ctx, "logstep", k, g[0].node, src(k, g[0].node), "deterministic below num_reserved, probabilistic at or above it", res2)
     # the counter variable is changed only inside the loop, and every return hands back that variable
-    cname = k.params[0]
-    loopn = lp.node if lp else None
-    outside = []
-    for n in walk_no_nested(k.node):
-        if isinstance(n, (ast.Assign, ast.AugAssign)):
-            tg = n.targets if isinstance(n, ast.Assign) else [n.target]
-            for t in tg:
-                for e_ in (t.elts if isinstance(t, (ast.Tuple, ast.List)) else [t]):
-                    if isinstance(e_, ast.Name) and e_.id == cname and not (loopn is not None and is_inside(k.node, n, loopn)):
-                        outside.append(n)
     ctx.ob("logstep", k, outside[0] if outside else k.node, "assignments to `%s` outside the step loop" % cname,
            "the counter changes only through the per-unit steps of the loop", True if not outside else None,
            "" if not outside else "`%s` changes the counter outside the per-unit loop: shape not understood" % unparse(outside[0], 60))
@@ -1281,6 +1306,13 @@ def rule_logstep(ctx):
         if not before:
             cur = r.env.get(cname)
             okk = isinstance(cur, Num) and first.lin == cur.lin
+            rv = r.node.value.elts[0] if isinstance(getattr(r.node, "value", None), ast.Tuple) and r.node.value.elts else getattr(r.node, "value", None)
+            under = rv
+            while isinstance(under, ast.Call) and len(under.args) == 1 and not under.keywords:
+                under = under.args[0]
+            if not okk and under is not rv and isinstance(under, ast.Name) and under.id == cname:
+                res_in.append((None, "returns `%s`: the maintained counter under a cast the walker could not show to be value-preserving" % unparse(rv, 40), fact_strs(r)))
+                continue
             res_in.append((okk, "returns the step-wise maintained counter" if okk else
                            "returns %s, not the counter maintained by the per-unit steps" % show_lin(first.lin), fact_strs(r)))
         else:
@@ -1549,6 +1581,92 @@ def rule_no_skip(ctx, kernels, rule="no-skip"):
 # findbase-post: the log base is accepted only if it satisfies its defining equation
 # ---------------------------------------------------------------------------
 
+def cond_facts(c):
+    """Linear facts (each `lin <= 0`) entailed by a walker condition; [] when it has none; None when it is `false`."""
+    k = c[0]
+    if k == "false":
+        return None
+    if k in ("le", "flt"):
+        return [c[1]]
+    if k == "eq":
+        return [c[1], -c[1]]
+    if k == "and":
+        out = []
+        for x in c[1]:
+            f = cond_facts(x)
+            if f is None:
+                return None
+            out.extend(f)
+        return out
+    return []
+
+
+def prove_le0_cases(P, goal, ev, extra=()):
+    """goal <= 0 from the event's facts; failing that, by cases over one disjunction the path carries (`if a and b:` not taken
+    leaves `not a or not b`): the goal must follow under every disjunct (a disjunct that contradicts the facts counts as proved)."""
+    base = list(ev.facts) + list(extra)
+    p = P.prove_le0(goal, base)
+    if p:
+        return p
+    for o in getattr(ev, "ors", ()):
+        if len(o[1]) > 4:
+            continue
+        okk = True
+        for x in o[1]:
+            f = cond_facts(x)
+            if f is None:
+                continue
+            if not P.prove_le0(goal, base + f):
+                # infeasible disjunct: some fact of it is refuted by the base
+                if not any(P.prove_le0(-g + 1, base) for g in f):
+                    okk = False
+                    break
+        if okk:
+            return True
+    return False
+
+
+def _reaching_subst(fn_node, stmt, expr):
+    """`expr` (read by `stmt`) with every name that is assigned more than once in the function replaced by the value of the assignment
+    that reaches `stmt` in its own statement list: the nearest earlier sibling `name = v`, with no statement in between (at any depth)
+    storing the name or any name `v` reads.  Names without such a definition are left alone."""
+    import copy as _copy
+    block = None
+    for parent in ast.walk(fn_node):
+        for fld in ("body", "orelse", "finalbody"):
+            b = getattr(parent, fld, None)
+            if isinstance(b, list) and any(x is stmt for x in b):
+                block = b
+    if block is None:
+        return expr
+    idx = next(i for i, x in enumerate(block) if x is stmt)
+    counts = {}
+    for x in ast.walk(fn_node):
+        if isinstance(x, ast.Name) and isinstance(x.ctx, (ast.Store, ast.Del)):
+            counts[x.id] = counts.get(x.id, 0) + 1
+    mapping = {}
+    for nm in {x.id for x in ast.walk(expr) if isinstance(x, ast.Name) and counts.get(x.id, 0) > 1}:
+        for j in range(idx - 1, -1, -1):
+            sj = block[j]
+            if isinstance(sj, ast.Assign) and len(sj.targets) == 1 and isinstance(sj.targets[0], ast.Name) and sj.targets[0].id == nm:
+                reads = {y.id for y in ast.walk(sj.value) if isinstance(y, ast.Name)}
+                between = block[j + 1:idx]
+                if not any(isinstance(y, ast.Name) and isinstance(y.ctx, (ast.Store, ast.Del)) and (y.id in reads or y.id == nm) for b_ in between for y in ast.walk(b_)):
+                    mapping[nm] = sj.value
+                break
+            if any(isinstance(y, ast.Name) and isinstance(y.ctx, (ast.Store, ast.Del)) and y.id == nm for y in ast.walk(sj)):
+                break
+    if not mapping:
+        return expr
+
+    class _S(ast.NodeTransformer):
+        def visit_Name(self, x):
+            if isinstance(x.ctx, ast.Load) and x.id in mapping:
+                return _copy.deepcopy(mapping[x.id])
+            return x
+    return _S().visit(_copy.deepcopy(expr))
+
+
 def rule_findbase_post(ctx):
     """`_find_base` (called by the log constructors with (max_count, num_reserved, ceiling)) returns a base only after checking
     the residual of  (base**K - 1)/(base - 1) == max_count - num_reserved  and raising ValueError otherwise: then every
@@ -1595,7 +1713,7 @@ def rule_findbase_post(ctx):
         if any(isinstance(s, ast.Raise) for s in n.body):
             exc = [s for s in n.body if isinstance(s, ast.Raise)][0].exc
             en = dotted(exc.func) if isinstance(exc, ast.Call) else dotted(exc)
-            t = resolve_temps(fb.node, n.test, allow_subscript=True, pure_only=False, in_loops=False, loose=True)
+            t = resolve_temps(fb.node, _reaching_subst(fb.node, n, n.test), allow_subscript=True, pure_only=False, in_loops=False, loose=True)
             # abs(<residual>) > tol   (either orientation)
             if isinstance(t, ast.Compare) and len(t.ops) == 1 and isinstance(t.ops[0], (ast.Gt, ast.GtE, ast.Lt, ast.LtE)):
                 sides = [t.left, t.comparators[0]]
